@@ -31,11 +31,18 @@ def _ids(out, dtype):
     return np.round((np.asarray(out, dtype=np.float64) - b) / a).astype(np.int64).tolist()
 
 
+def _npdtype(kind, values):
+    """dtype of a NumPy index (`np` = int64, `np:<dtype>`); int64 when the values do not fit"""
+    dt = np.dtype(kind[3:] if kind.startswith('np:') else 'int64')
+    info = np.iinfo(dt)
+    return dt if all(info.min <= v <= info.max for v in values) else np.dtype('int64')
+
+
 def _pyitem(it, kind):
     if 'int' in it:
-        return np.int64(it['int']) if kind == 'np' else int(it['int'])
+        return _npdtype(kind, [it['int']]).type(it['int']) if kind.startswith('np') else int(it['int'])
     if 'list' in it:
-        return np.array(it['list'], dtype=np.int64) if kind == 'np' else list(it['list'])
+        return np.array(it['list'], dtype=_npdtype(kind, it['list'])) if kind.startswith('np') else list(it['list'])
     s, e = it['slice']
     return slice(s, e)
 
@@ -44,9 +51,21 @@ def _pycols(c, kind):
     if c is None:
         return None
     if 'idx' in c:
-        return np.array(c['idx']) if kind == 'np' else list(c['idx'])
+        return np.array(c['idx']) if kind.startswith('np') else list(c['idx'])
     s, e, st = c['slice']
     return slice(s, e, st)
+
+
+def _fname(scheme, i):
+    """file names whose lexicographic order is / is not the order in which they are given"""
+    if scheme == 'rev':
+        return 'f%02d.bin' % (90 - i)
+    if scheme == 'nat':
+        return 'rec_t%d.bin' % (8 + i)        # rec_t8, rec_t9, rec_t10, ...: sorted order differs
+    return 'f%d.bin' % i
+
+
+NPKINDS = ['np', 'np:uint64', 'np:uint32', 'np:int32', 'np:uint8', 'np:intp', 'np:uint16']
 
 
 def impl(case):
@@ -60,12 +79,12 @@ def impl(case):
         if backend == 'flat':
             paths, off = [], 0
             for i, l in enumerate(parts):
-                p = d / ('f%d.bin' % i)
+                p = d / _fname(case.get('names', 'idx'), i)
                 with open(p, 'wb') as f:
                     f.write(b'\xff' * case.get('offset', 0))
                     f.write(A[off:off + l].tobytes())
                 off += l
-                paths.append(p)
+                paths.append(str(p) if case.get('pathkind') == 'str' else p)
             r = get_ephys_reader(paths if len(paths) > 1 or case.get('aslist') else paths[0],
                                  sample_rate=sr, dtype=np.dtype(dtype), n_channels=nch,
                                  offset=case.get('offset', 0))
@@ -166,6 +185,9 @@ def tally(rep, case, impl_res, ans):
     for it, c, kind in case['items']:
         rep.count('item:' + next(iter(it)))
         rep.count('cols:' + ('none' if c is None else next(iter(c))))
+        rep.count('index_type:' + kind)
+    if case['backend'] == 'flat':
+        rep.count('file_names:%s/%s' % (case.get('names', 'idx'), case.get('pathkind', 'path')))
     rep.extra['index_expressions_total'] = rep.hist.get('index_expressions', 0)
 
 
@@ -274,13 +296,14 @@ def gen(tier, rng):
                 sels = col_selectors(nch, rng)
                 its = []
                 for j, it in enumerate(items):
-                    kind = 'np' if (j + k) % 3 == 0 else 'py'
+                    kind = NPKINDS[(j + k) % len(NPKINDS)] if (j + k) % 3 == 0 else 'py'
                     its.append([it, sels[(j + k) % len(sels)], kind])
                     if (j + k) % 5 == 0:
                         its.append([it, None, kind])
                 yield dict(p=PID, backend='flat', parts=parts, nch=nch, dtype=dtype,
                            offset=[0, 7, isz * nch * 2, 1][k % 4], sr=[100., 1000., 2.5][k % 3], items=its,
-                           aslist=bool(k % 2))
+                           aslist=bool(k % 2), names=['idx', 'rev', 'nat'][k % 3],
+                           pathkind=['path', 'str'][(k // 3) % 2])
         # single-part backends
         for backend in ('npy', 'array', 'cbin'):
             k += 1
@@ -291,7 +314,7 @@ def gen(tier, rng):
             for j, it in enumerate(items):
                 if backend == 'cbin' and 'list' in it:
                     continue
-                kind = 'np' if (j + k) % 3 == 0 and backend != 'cbin' else 'py'
+                kind = NPKINDS[(j + k) % len(NPKINDS)] if (j + k) % 3 == 0 and backend != 'cbin' else 'py'
                 its.append([it, sels[(j + k) % len(sels)], kind])
             yield dict(p=PID, backend=backend, parts=[n], nch=nch, dtype=dtype, sr=[10., 100.][k % 2],
                        cd=[1., .2][k % 2], items=its)
@@ -322,6 +345,7 @@ def gen(tier, rng):
                 cand = set(rng.sample(range(n), min(n, rng.randrange(1, 12))))
                 cand |= {x for x in (rng.pick(b[:-1]), rng.pick(b[1:]) - 1) if 0 <= x < n}
                 it = dict(list=sorted(cand))
-            its.append([it, rng.pick(sels), rng.pick(['py', 'np'])])
+            its.append([it, rng.pick(sels), rng.pick(['py'] + NPKINDS)])
         yield dict(p=PID, backend='flat', parts=parts, nch=nch, dtype=dtype, offset=rng.pick([0, 0, 5, 128]),
-                   sr=rng.pick([100., 30000.]), items=its, aslist=True)
+                   sr=rng.pick([100., 30000.]), items=its, aslist=True, names=rng.pick(['idx', 'rev', 'nat']),
+                   pathkind=rng.pick(['path', 'str']))
